@@ -281,7 +281,7 @@ def _hg_inputs(tier, rng):
         es = sorted({tuple(sorted(rng.sample(range(1, n + 1), z))) for z in zs for _ in range(rng.randint(1, 2))})[:7]
         out.append((n, es, False, FAMS[i % len(FAMS)], None))
     # random ones, a third of them weighted (incidence and adjacency factor only)
-    for i in range(70 if tier == "quick" else 2200):
+    for i in range(130 if tier == "quick" else 2200):
         n = rng.randint(2, 6)
         out.append((n, random_edges(n, rng, m=rng.randint(1, 7), maxsize=4), i % 3 == 0, FAMS[i % len(FAMS)], None))
     return out
@@ -293,7 +293,7 @@ TIME_SETS = ([0, 1], [0, 1], [0, 1, 2], [1, 2], [2], [0], [0, 2], [1, 3, 4], [0,
 def _temp_inputs(tier, rng):
     """(n, records, weighted, family, shape)"""
     out = []
-    for i in range(110 if tier == "quick" else 2400):
+    for i in range(180 if tier == "quick" else 2400):
         n = rng.randint(2, 5)
         times = list(rng.choice(TIME_SETS))
         shape = ("same_nodes_at_every_time", "any", "any")[i % 3]
@@ -429,19 +429,35 @@ def _digest(res, seed, cases, descr, v, agg):
             agg["time_sets"].add(str(sorted({t for _, t in d["present"]})))
 
 
-def run(tier, seed):
-    res = Result("X01", tier, seed, "model_checking")
+HG_LIGHT = ["OrdersPartitionKeys", "IncidenceAllOrdersShape", "MultiLapPlainIsDegreeMinusAdjacency", "MultiLapNormalisedTrace",
+            "AdjFactorIsNeighbourhood", "LaplaciansCommute"]
+
+
+def _explore_all(res, tier):
+    """the design, exhaustively on the bounded container model (runs beside the validation of the implementation)"""
+    hg3 = dict(n=3, maxw=1, batches=False, metaops=False, weighted=False)
     if tier == "quick":
-        explore(res, "hg", tier, module="MC_MatricesX", invariants=HG_INV,
-                configs=[dict(n=3, maxw=1, batches=False, metaops=False, weighted=False)])
+        explore(res, "hg", tier, module="MC_MatricesX", invariants=HG_INV, configs=[hg3])
         explore(res, "temp", tier, module="MC_MatricesX", invariants=TEMP_INV,
                 configs=[dict(n=2, maxw=1, batches=False, metaops=False, xs=[0, 2], weighted=False)])
     else:
-        explore(res, "hg", tier, module="MC_MatricesX", invariants=HG_INV,
-                configs=[dict(n=3, maxw=2, batches=False, metaops=False),
-                         dict(n=4, maxw=1, batches=False, metaops=False, weighted=False)])
+        explore(res, "hg", tier, module="MC_MatricesX", invariants=HG_INV, configs=[hg3])
+        # 4 nodes (the smallest universe with Laplacians that do not commute): the integer-valued invariants
+        explore(res, "hg", tier, module="MC_MatricesX", invariants=HG_LIGHT,
+                configs=[dict(n=4, maxw=1, batches=False, metaops=False, weighted=False)])
         explore(res, "temp", tier, module="MC_MatricesX", invariants=TEMP_INV,
-                configs=[dict(n=2, maxw=1, batches=False, metaops=False, xs=[0, 1, 3], weighted=False)])
+                configs=[dict(n=2, maxw=1, batches=False, metaops=False, xs=[0, 1, 3], weighted=False),
+                         dict(n=2, maxw=1, batches=False, metaops=False, xs=[0, 2], weighted=False)])
+
+
+def _validate(kind, cases, procs):
+    return K.run_cases("Trace_X01", cases, {"Kind": "temp" if kind == "tempx" else "hg"}, procs=procs,
+                       per_batch=min(150, max(10, len(cases) // procs + 1)))
+
+
+def run(tier, seed):
+    import concurrent.futures as cf
+    res = Result("X01", tier, seed, "model_checking")
     rng = random.Random(seed)
     groups = (("hgx", _hg_inputs(tier, rng)), ("tempx", _temp_inputs(tier, rng)))
     agg = {"cases": 0, "states": 0, "rejected_cases": 0, "mats": 0, "hgx": 0, "tempx": 0, "weighted": 0, "fams": set(),
@@ -449,23 +465,37 @@ def run(tier, seed):
     pool = None
     if tier != "quick":
         import multiprocessing as mp
-        pool = mp.get_context("fork").Pool(10)
+        pool = mp.get_context("fork").Pool(8)
     t_py = t_tlc = 0.0
+    ex = cf.ThreadPoolExecutor(max_workers=3)
     try:
-        for kind, items in groups:
-            for start in range(0, len(items), 1500):
-                t0 = time.time()
-                cases, descr = _observe(kind, seed * 100000 + start, items[start:start + 1500], pool)
-                t_py += time.time() - t0
-                t0 = time.time()
-                v = K.run_cases("Trace_X01", cases, {"Kind": "temp" if kind == "tempx" else "hg"},
-                                procs=8 if tier == "quick" else 12, per_batch=min(150, max(10, len(cases) // 8 + 1)))
-                t_tlc += time.time() - t0
+        fexp = ex.submit(_explore_all, res, tier)
+        if tier == "quick":
+            t0 = time.time()
+            obs = [(kind,) + _observe(kind, seed * 100000, items, None) for kind, items in groups]
+            t_py += time.time() - t0
+            t0 = time.time()
+            futs = [ex.submit(_validate, kind, cases, 9 if kind == "hgx" else 5) for kind, cases, _ in obs]
+            vs = [f.result() for f in futs]
+            t_tlc += time.time() - t0
+            for (kind, cases, descr), v in zip(obs, vs):
                 _digest(res, seed, cases, descr, v, agg)
-                if cases:
-                    i = len(cases) // 2
-                    res.sample({"input": descr[i], "logged": strip(cases[i])}, cap=4)
+                res.sample({"input": descr[len(cases) // 2], "logged": strip(cases[len(cases) // 2])}, cap=4)
+        else:
+            for kind, items in groups:
+                for start in range(0, len(items), 1500):
+                    t0 = time.time()
+                    cases, descr = _observe(kind, seed * 100000 + start, items[start:start + 1500], pool)
+                    t_py += time.time() - t0
+                    t0 = time.time()
+                    v = _validate(kind, cases, 10)
+                    t_tlc += time.time() - t0
+                    _digest(res, seed, cases, descr, v, agg)
+                    if cases:
+                        res.sample({"input": descr[len(cases) // 2], "logged": strip(cases[len(cases) // 2])}, cap=4)
+        fexp.result()
     finally:
+        ex.shutdown(wait=True)
         if pool is not None:
             pool.close()
             pool.join()
